@@ -175,3 +175,38 @@ Definition addr_spec : re :=
 Definition delim_cls : cls := [(0, 47); (59, 64); (91, 94); (96, 96); (123, 255)].
 Definition delim_spec : re := Cls delim_cls.
 Definition is_delim (c : N) : bool := in_cls c delim_cls.
+
+(* ------------------------------------------------------------------ classes of addr_spec used by the coverage proof *)
+
+Definition v4forms : re := Alt V4 (Seq V4 port_spec).             (* d.d.d.d  and  d.d.d.d:port *)
+Definition ip6_nodot : re :=                                       (* bare IPv6 without a dotted tail *)
+  alts ([Seq (times Hc 7) H] ++ map compressed_at (seq 0 8)).
+Definition bare_v4tail : re :=                                     (* bare IPv6 with a dotted tail *)
+  alts ([Seq (times Hc 6) V4] ++ map compressed_v4_at (seq 0 6)).
+Definition bracketed : re :=
+  Alt (Seq (chr 91) (Seq ip6_spec (chr 93))) (Seq (chr 91) (Seq ip6_spec (Seq (chr 93) port_spec))).
+Definition rest_spec : re := alts [v4forms; ip6_nodot; bracketed].  (* addr_spec = rest_spec + bare_v4tail *)
+Definition nonv4_spec : re := Alt ip6_spec bracketed.               (* addr_spec = v4forms + nonv4_spec *)
+
+Definition ws_cls : cls := [(9, 10); (12, 13); (32, 32)].           (* Go's \s *)
+Definition ws_spec : re := Cls ws_cls.
+Definition is_ws (c : N) : bool := in_cls c ws_cls.
+(* what may follow the address inside a match: one delimiter byte, or ':' and a whitespace byte *)
+Definition right_spec : re := Alt delim_spec (Seq colon ws_spec).
+Definition delim_nodot_cls : cls := [(0, 45); (47, 47); (59, 64); (91, 94); (96, 96); (123, 255)].
+Definition dot_cls : cls := [(46, 46)].
+Definition nondigit_cls : cls := [(0, 47); (58, 255)].
+
+(* ------------------------------------------------------------------ common/event: the String() of the events that carry an error *)
+
+(* EventOnOfferCreated (0), EventOnBrokerRendezvous (1), EventOnSnowflakeConnectionFailed (other):
+   fmt.Sprintf("<fixed text> %s", safelog.Scrub([]byte(e.Error.Error()))) *)
+Definition event_prefix (ty : N) : bytes :=
+  match ty with
+  | 0 => [111;102;102;101;114;32;99;114;101;97;116;105;111;110;32;102;97;105;108;117;114;101;32]  (* "offer creation failure " *)
+  | 1 => [98;114;111;107;101;114;32;102;97;105;108;117;114;101;32]                                 (* "broker failure " *)
+  | _ => [116;114;121;105;110;103;32;97;32;110;101;119;32;112;114;111;120;121;58;32]              (* "trying a new proxy: " *)
+  end.
+
+Definition event_string (fulls : list re) (ty : N) (err : bytes) : bytes :=
+  event_prefix ty ++ scrub fulls err.
